@@ -365,7 +365,9 @@ decode_hex = Unit(
     'decodeHex', 'C15',
     cuts=[Cut('dh', U, r'^ByteArray decodeHex\(const String& s\)\s*$',
               rules=[(r'ByteArray a\(s\.length\(\) / 2\);', 'int a_len = g_len / 2; int a_cap = a_len > 3 ? a_len : 3;', 1), (r's\.length\(\)', 'g_len', None),
-                     (r'a\[i/2\] = \(byte\)s\.substring\(i, i \+ 2\)\.hexToInt\(\);', '{ A_AT(i / 2); SUBSTRING_PRE(g_len, i, i + 2); g_writes++; }', 1), (r'return a;', 'return;', 1)],
+                     (r's\.substring\(([^,]+), ([^)]+)\)\.hexToInt\(\)', r'(SUBSTRING_PRE(g_len, \1, \2), 0)', None), (r'strtoul\((\w+), NULL, 16\)', r'((void)\1[0], 0)', None), (r'const char\* p = \*s;', 'const char* p = g_text;', None),
+                     (r'\ba\[([^\]]+)\] = ([^;]*);', r'{ A_AT(\1); (void)(\2); g_writes++; }', 1),   # whatever computes the byte: the index and the reads it makes are what is checked
+                     (r'return a;', 'return;', 1)],
               loops=[(r'for\s*\(', 0, '''
   __CPROVER_assigns(i, g_writes)
   __CPROVER_loop_invariant(0 <= i && i <= g_len && i % 2 == 0 && g_writes == i / 2)
@@ -373,11 +375,11 @@ decode_hex = Unit(
 ''')])],
     text=r'''
 #include "vf_base.h"
-int g_len, g_writes;
+int g_len, g_writes; const char* g_text;
 #define A_AT(k) __CPROVER_assert(0 <= (k) && (k) < a_len, "Array::operator[] index below length")
 #define SUBSTRING_PRE(len, i, j) __CPROVER_assert(0 <= (i) && (i) <= (j) && (j) <= (len), "String::substring(i, j) needs 0 <= i <= j <= length()")
 void decodeHex(void)
-__CPROVER_requires(0 <= g_len && g_len <= 1000000 && g_writes == 0)
+__CPROVER_requires(0 <= g_len && g_len <= 1000000 && g_writes == 0 && __CPROVER_is_fresh(g_text, g_len + 1) && g_text[g_len] == 0)
 /* any text, even or odd length: every write is inside the result array, every substring inside the text; one byte per complete pair of digits */
 __CPROVER_ensures(g_writes == g_len / 2)
 __CPROVER_assigns(g_writes)
@@ -418,6 +420,54 @@ UNITS += [b64_tail]
 # Url::parseQuery(Url::params(d)) = d: the order-of-operations unit lives with the HTTP units
 from units.C09 import parse_query as _pq
 UNITS += [_pq]
+from vf.core import DEFAULT_CHECKS as _DC
+NO_OVF15 = [c for c in _DC if c != '--signed-overflow-check'] + ['--no-signed-overflow-check']   # count[0] is a signed int used as a bit counter
+
+# ---- SHA1::end(): padding (FIPS 180-4 5.1.1) - after the message: one byte 0x80, the SMALLEST number of zero bytes that brings the length to 56 mod 64, then the bit length as
+# a 64-bit big-endian number; so the total is the smallest multiple of 64 that is >= L + 9.  update() is a stub with the contract of unit SHA1_update (bit count += 8n)
+# that records what it is fed; the digest is the state, big-endian.
+sha_end = Unit(
+    'SHA1_end', 'C15',
+    cuts=[Cut('end', SH, r'^SHA1::Hash SHA1::end\(\)\s*$', members=('count', 'state'),
+              rules=[(r'Hash digest;', '', 1), (r'(?<![\w.>])update\(', 'VF_UPDATE(self, ', None), (r'memset\(this, [^;]*;', 'g_wiped = 1;', None), (r'memset\(&finalcount, [^;]*;', '', None),
+                     (r'return digest;', 'return;', 1), (r'static const byte zeros\[64\] = \{ 0 \};', 'const byte zeros[64] = { 0 };', None)])],
+    text=r'''
+#include "vf_base.h"
+#include <stdint.h>
+''' + SHA_STATE + r'''
+int g_L;                       /* message length in bytes (count = 8 * g_L) */
+int g_fed, g_first_ok, g_zero_ok, g_k, g_wiped; byte g_lenbytes[8]; int g_len_at;
+byte digest[20];
+/* update(p, n): n more bytes of input; the bit count grows by 8n (contract of unit SHA1_update).  Here it checks the shape of what end() appends. */
+static void VF_UPDATE(SHA1* self, const byte* p, int n) {
+  __CPROVER_assert(n >= 0 && (n == 0 || __CPROVER_r_ok(p, n)), "update reads n bytes");
+  if (g_fed == 0 && n >= 1) g_first_ok = (p[0] == 0x80 && n == 1);               /* the first byte after the message */
+  /* byte classes: position 0 -> 0x80; the LAST 8 bytes fed -> the length; everything between -> zero.  The length bytes are recognised as the final 8-byte call. */
+  if (n == 8 && g_fed >= 1) { g_len_at = g_fed; for (int i = 0; i < 8; i++) g_lenbytes[i] = p[i]; }
+  else if (g_fed >= 1) { for (int i = 0; i < n && i < 64; i++) if (p[i] != 0) g_zero_ok = 0; __CPROVER_assert(n <= 64, "zero padding fed in pieces of at most one block"); }
+  g_fed += n; self->count[0] += n << 3;
+}
+void SHA1_end(SHA1* self)
+__CPROVER_requires(__CPROVER_is_fresh(self, sizeof(SHA1)) && 0 <= g_L && g_L <= 100000000 && self->count[0] == 8 * g_L && self->count[1] == 0)
+__CPROVER_requires(g_fed == 0 && g_first_ok == 0 && g_zero_ok == 1 && g_len_at == -1 && g_wiped == 0 && 0 <= g_k && g_k < 20)
+/* FIPS 180-4 5.1.1: 0x80, minimal zero padding, 64-bit big-endian bit length: the padded message is the smallest multiple of 64 bytes that holds L + 9 */
+__CPROVER_ensures(g_first_ok && g_zero_ok && g_len_at == g_fed - 8)
+__CPROVER_ensures((g_L + g_fed) % 64 == 0 && g_L + g_fed == 64 * ((g_L + 9 + 63) / 64))
+__CPROVER_ensures(g_lenbytes[0] == 0 && g_lenbytes[1] == 0 && g_lenbytes[2] == 0 && g_lenbytes[3] == 0 && g_lenbytes[4] == (byte)((8u * g_L) >> 24) && g_lenbytes[5] == (byte)((8u * g_L) >> 16) && g_lenbytes[6] == (byte)((8u * g_L) >> 8) && g_lenbytes[7] == (byte)(8u * g_L))
+/* the digest is H0..H4 in big-endian order; the object is wiped */
+__CPROVER_ensures(digest[g_k] == (byte)(__CPROVER_old(self->state[g_k >> 2]) >> (8 * (3 - (g_k & 3)))) && g_wiped)
+__CPROVER_assigns(*self, g_fed, g_first_ok, g_zero_ok, g_lenbytes, g_len_at, g_wiped, digest)
+@@end@@
+void vf_harness(void) { SHA1* s; SHA1_end(s); VF_CANARY(); }
+''',
+    entry='SHA1_end', unwind=70, checks=NO_OVF15,
+    desc='SHA1::end() for EVERY message length below 100 MB: appends 0x80, the minimal zero padding and the 64-bit big-endian bit length (FIPS 180-4 5.1.1: total = smallest multiple of 64 >= L+9), '
+         'returns the state big-endian and wipes the object',
+    functions=['SHA1::end'],
+    trusted=['SHA1::update by its contract (unit SHA1_update): consumes n bytes, bit count += 8n; the state it leaves is the transform of the fed blocks'],
+    assumes=['count[1] == 0 (fewer than 512 MiB hashed)'],
+)
+UNITS += [sha_end]
 
 # replay: where the trace recipe of a unit does not reproduce (or there is none) the driver's battery runs on the real library: Base64/hex for every length 0..400 (RFC text,
 # round trip, whitespace interleaved), all malformed Base64 strings up to 6 characters over {A = - space LF /}, odd-length hex, percent-encoding of every byte in both modes,
